@@ -14,6 +14,16 @@ func (p *Parser) parseBlock(parser *Parser) (Node, error) {
 	blockName := parser.tokens[parser.tokenIndex].Value
 	parser.tokenIndex++
 
+	// A template defines each block once; a block nested in a block of the
+	// same name would otherwise render itself without end
+	if firstLine, defined := parser.blockLines[blockName]; defined {
+		return nil, fmt.Errorf("the block '%s' has already been defined at line %d (line %d)", blockName, firstLine, blockLine)
+	}
+	if parser.blockLines == nil {
+		parser.blockLines = make(map[string]int)
+	}
+	parser.blockLines[blockName] = blockLine
+
 	// Expect the block end token
 	if parser.tokenIndex >= len(parser.tokens) || parser.tokens[parser.tokenIndex].Type != TOKEN_BLOCK_END {
 		return nil, fmt.Errorf("expected block end token after block name at line %d", blockLine)
